@@ -47,3 +47,37 @@ def c15_inner(v):
 
 def c15_outer(x):
     return c15_inner(x) * 2.0 + c15_inner(x * 0.5)
+
+
+def _c16_prim():
+    from jax.extend.core import Primitive
+    from jax.interpreters import mlir
+
+    p = Primitive("c16_unregistered_in_function")
+    p.def_impl(lambda x: x * 2.0 + 1.0)
+    p.def_abstract_eval(lambda x: x)
+    mlir.register_lowering(p, mlir.lower_fun(lambda x: x * 2.0 + 1.0, multiple_results=False))
+    return p
+
+
+_C16_P = _c16_prim()
+
+
+@onnx_function
+def c16_inner_unregistered(v):
+    return _C16_P.bind(v) * 0.5
+
+
+def c16_outer_with_unregistered(x):
+    return c16_inner_unregistered(x) + 1.0
+
+
+@onnx_function
+def c16_inner_tanh(v):
+    from jax import lax
+
+    return lax.tanh(v) * 0.5
+
+
+def c16_outer_tanh(x):
+    return c16_inner_tanh(x) + 1.0
